@@ -55,7 +55,7 @@ class CenterSliceErrorModel(SimpleErrorModel):
         :raises TypeError: if any parameter is of an invalid type.
         """
         try:  # paranoid checking for CLI
-            if not (len(lim) == 3 and np.count_nonzero(lim) in (1, 2)):
+            if not (len(lim) == 3 and np.count_nonzero(lim) in (1, 2) and all(0 <= v < float('inf') for v in lim)):
                 raise ValueError('{} valid lim values are 3-tuples of number with 1 or 2 zeros.'
                                  .format(type(self).__name__))
             if not -1.0 <= pos <= 1.0:
